@@ -45,6 +45,30 @@ INJ = {
          'assigns': 'i, __CPROVER_object_whole(self->m_data)',
          'invariants': ['i <= sz', 'C02_INV_ER_K(self, first, i)', 'C02_INV_ER_J(self, first, i)'],
          'decreases': 'sz - i'}],
+    'CCC': [   # copy constructor
+        {'file': F, 'func': 'vector_ctor_copy', 'ghost': 'g_snap_take(&g_cc, other->m_data);', 'at': 'func-begin'},
+        {'file': F, 'func': 'vector_ctor_copy', 'loop': 0, 'expect': 'ip != other->m_data + other->m_size',
+         'assigns': 'ip, op, __CPROVER_object_whole(self->m_data)',
+         'invariants': ['C02_INV_CC_PTR(self, other, ip, op)', 'C02_INV_CC_K(self, ip)', 'C02_INV_CC_J(self, ip)'],
+         'decreases': 'C02_DEC_CC(other, ip)'}],
+    'CCA': [   # copy assignment
+        {'file': F, 'func': 'vector_assign_copy', 'ghost': 'g_snap_take(&g_cc, other->m_data);', 'at': 'func-begin'},
+        {'file': F, 'func': 'vector_assign_copy', 'loop': 0, 'expect': 'ip != other->m_data + other->m_size',
+         'assigns': 'ip, op, __CPROVER_object_whole(self->m_data)',
+         'invariants': ['C02_INV_CC_PTR(self, other, ip, op)', 'C02_INV_CC_K(self, ip)', 'C02_INV_CC_J(self, ip)'],
+         'decreases': 'C02_DEC_CC(other, ip)'}],
+    'EQ': [
+        {'file': F, 'func': 'vector_eq', 'ghost': 'g_eq_it = it;', 'at': 'before', 'anchor': 'if (ELEM_value(it) != ELEM_value(bit))'},
+        {'file': F, 'func': 'vector_eq', 'loop': 0, 'expect': 'it != eit',
+         'assigns': 'it, bit, g_eq_it',
+         'invariants': ['C02_INV_EQ(self, oth, it, bit)'],
+         'decreases': 'self->m_size - C02_IDX(it)'}],
+    'CR': [
+        {'file': F, 'func': 'vector_ctor_range', 'ghost': 'g_cr_first0 = first;', 'at': 'func-begin'},
+        {'file': F, 'func': 'vector_ctor_range', 'loop': 0, 'expect': 'first != last',
+         'assigns': 'first, self->m_size, __CPROVER_object_whole(self->m_data)',
+         'invariants': ['C02_INV_CR(self, first, last)', 'C02_INV_CR1(g_k, self)'],
+         'decreases': '__CPROVER_POINTER_OFFSET(last) - __CPROVER_POINTER_OFFSET(first)'}],
     # known-finding waiver windows (see spec/c02_vec.h): the raw slot end()-1 that insert/emplace (move-)assign into
     'W_INSERT': [
         {'file': F, 'func': 'vector_insert', 'at': 'after', 'anchor': 'self->m_size++;',
